@@ -5,6 +5,7 @@ pub mod arena;
 pub mod bufs;
 pub mod drv;
 pub mod files;
+pub mod free;
 pub mod iso;
 pub mod model;
 pub mod out;
@@ -71,6 +72,7 @@ fn main() {
         "iso-c04" => iso::c04_main(&args),
         "files" => files::child_main(&args),
         "sched" => sched::child_main(&args),
+        "free" => free::child_main(&args),
         "cksum" => readers::c19_main(&args),
         "drive" => drive::main(&args),
         other => {
